@@ -163,6 +163,18 @@ check('C13', 'exploration',
       TB, 'exhaustive enumeration of a boundary-value x entry-point cube against an independent table', 'E5',
       'DESIGN.md §4 C13')
 
+check('C14', 'fault_enumeration',
+      'Object-keyed families, all four kinds, both implementations: in every reachable shape of the shape '
+      'spaces (instrumented key class) every operation of the fault alphabet (lookups, inserts of every '
+      'absent key, replace, delete, pop, setdefault, discard, range searches and minKey/maxKey with present, '
+      'gap and outside bounds, update, in-place set operators with list and container operands, module '
+      'union/intersection/difference, leaf conflict merges) is run once to count its key comparisons and '
+      'then once for EVERY comparison index with that comparison raising a private exception: the exception '
+      'must reach the caller, contents == before or == completed, _check/check/independent walk pass and a '
+      'follow-up workload agrees with the model.',
+      TB, 'exhaustive single-fault enumeration over every comparison index of every operation in every '
+      'state of a BFS state space', 'E3', 'DESIGN.md §4 C14')
+
 PENDING = ['C%02d' % i for i in range(1, 20)]
 
 
@@ -190,6 +202,9 @@ def main():
                  kind_free_text='explicit-state BFS; transition function = the real container'),
             dict(name='E2', path='vt/props/c09.py', serves_properties=['C09'],
                  kind_free_text='lock-step product BFS of the C and the pure-Python implementation'),
+            dict(name='E3', path='vt/kkey.py', serves_properties=['C05', 'C14', 'C15', 'C16', 'C17'],
+                 kind_free_text='deviation-bounded fault / schedule enumerators: n-th key comparison raises or '
+                                'sweeps the cache, n-th allocation fails, mutation at iterator step p'),
             dict(name='E4', path='vt/minidb.py', serves_properties=['C04', 'C05', 'C08', 'C19'],
                  kind_free_text='in-memory storage + data manager (ZODB commit order, MVCC, conflict '
                                 'resolution) driving the real persistence hooks'),
